@@ -60,17 +60,38 @@ fn trace_one(case: &Value, ranges: &[(u64, u64)]) -> Result<(u64, u64, String), 
             return Err("fork failed".into());
         }
         if pid == 0 {
-            // child: be traced, stop, validate once, leave
+            // child: be traced; build everything first; stop; then ONLY the validation call is traced
             libc::ptrace(libc::PTRACE_TRACEME, 0, 0, 0);
+            let cfg = case.get("cfg").cloned().unwrap_or(json!({}));
+            let script = Script::from_json(case.get("script").unwrap_or(&json!({})));
+            let mut oracle = Oracle {
+                sha: Vec::new(),
+                sig: Vec::new(),
+            };
+            let built = build(case, &mut oracle);
+            let req = match built.request() {
+                Ok(r) => r,
+                Err(_) => libc::_exit(13),
+            };
+            let region = String::from_utf8_lossy(&get_bytes(&cfg, "region")).to_string();
+            let service = String::from_utf8_lossy(&get_bytes(&cfg, "service")).to_string();
+            let now = now_of(&cfg);
+            let opts = options_of(&cfg);
+            let none: [std::borrow::Cow<'static, str>; 0] = [];
+            let reqs = scratchstack_aws_signature::SliceSignedHeaderRequirements::new(&none, &none, &none);
+            let mut provider = Provider {
+                script: script.clone(),
+                ready_left: script.ready_in,
+                events: std::sync::Arc::new(std::sync::Mutex::new(Vec::with_capacity(8))),
+            };
             libc::raise(libc::SIGSTOP);
-            let r = run_e2e_only(case);
-            let code = match r {
-                Some((end, _)) => match get_str(&end, "res") {
-                    "ok" => 10,
-                    "err" => 11,
-                    _ => 12,
-                },
-                None => 13,
+            let out = block_on(scratchstack_aws_signature::sigv4_validate_request(
+                req, &region, &service, &mut provider, now, &reqs, opts,
+            ));
+            let code = match out {
+                Some(Ok(_)) => 10,
+                Some(Err(_)) => 11,
+                None => 12,
             };
             libc::_exit(code);
         }
